@@ -441,6 +441,7 @@ func runC11(e *Env) error {
 		c11CLIScripted(e, pool)
 		c11CLIInterrupted(e, pool)
 		c11PGClean(e)
+		c11MyClean(e)
 	}
 	return nil
 }
